@@ -34,8 +34,8 @@ static Co<void> mx_user(Store &, cocls::mutex &mx, int *cnt, bool await_release)
         own.release();
 }
 
-enum Prog { P_FUT_WAIT = 0, P_FUT_CORO, P_FUT_BOTH, P_MX_BLOCK_CORO, P_MX_CORO_CORO, NP };
-static const char *p_names[] = {"future_wait", "future_coro", "future_wait+coro", "mutex_block+coro", "mutex_coro+coro"};
+enum Prog { P_FUT_WAIT = 0, P_FUT_CORO, P_FUT_BOTH, P_MX_BLOCK_CORO, P_MX_CORO_CORO, P_FUT_FORCE_WAIT, P_FUT_SYNC_BIND, NP };
+static const char *p_names[] = {"future_wait", "future_coro", "future_wait+coro", "mutex_block+coro", "mutex_coro+coro", "future_force_wait", "future_sync+bind"};
 
 static void scenario(int prog) {
     Store st[3];
@@ -70,6 +70,21 @@ static void scenario(int prog) {
                     seen[1] = f.wait();
                 } else
                     p(7);
+                break;
+            case P_FUT_FORCE_WAIT:  // the other blocking entry points: force_wait() ...
+                if (id == 0)
+                    seen[0] = f.force_wait();
+                else
+                    p(7);
+                break;
+            case P_FUT_SYNC_BIND:  // ... force_sync(), and a resolver that goes through promise::bind()
+                if (id == 0) {
+                    f.force_sync();
+                    seen[0] = f.value();
+                } else {
+                    auto bound = p.bind(7);
+                    bound();
+                }
                 break;
             case P_MX_BLOCK_CORO:
                 if (id == 0) {
